@@ -32,8 +32,21 @@ class VC:
 
 
 def _solve_job(job):
-    oid, text, timeout, seed, canary = job
+    oid, text, timeout, seed, canary, lean = job
     try:
+        if lean is not None and not canary:
+            # first with the lean set of analytic axiom instances (fewer irrelevant facts); only `unsat` counts
+            r0 = solve.solve_smt2(lean, timeout_s=min(timeout, 12), seed=seed, use_cvc5=False, want_model=False)
+            if r0["status"] == "unsat":
+                r0["attempts"] = ["lean-axioms"] + r0.get("attempts", [])
+                return oid, r0
+            # equational goals: polynomial-ideal membership over the equations among the assumptions
+            import time as _t
+            from . import groebner
+            t0 = _t.time()
+            if groebner.try_groebner(lean, timeout_s=8.0):
+                return oid, {"status": "unsat", "backend": "sympy-groebner", "time_s": round(_t.time() - t0, 3),
+                             "attempts": ["lean-axioms:unknown", "sympy-groebner:ideal-membership"]}
         r = solve.solve_smt2(text, timeout_s=timeout, seed=seed, use_cvc5=not canary)
     except Exception as exc:  # pragma: no cover
         r = {"status": "unknown", "backend": "none", "reason": "worker exception %s" % exc, "time_s": 0}
@@ -74,7 +87,18 @@ class Run:
         return mod
 
     # ----------------------------------------------------------- VC generation
-    def _collect(self, paths, kind, owner, canary=False):
+    def _note_inlined(self, interp):
+        for f in interp.inlined_functions.values():
+            try:
+                prov = FuncSrc.get(f).provenance()
+            except OutsideSubset:
+                continue
+            if not any(x["function"] == prov["function"] for x in self.functions):
+                prov["inlined"] = True
+                self.functions.append(prov)
+
+    def _collect(self, paths, kind, owner, canary=False, deps=()):
+        deps = sorted({d[len("inline:"):] if d.startswith("inline:") else d for d in deps})
         for p in paths:
             self.paths += 1
             self.lemmas |= p.ghost.get("auto_lemmas", set())
@@ -83,6 +107,9 @@ class Run:
                 extra = solve.analytic_instances(ob.assumptions + [ob.goal])
                 text = solve.to_smt2(ob.assumptions, ob.goal, extra)
                 meta = dict(ob.meta)
+                meta["deps"] = deps
+                lean = solve.analytic_instances(ob.assumptions + [ob.goal], rounds=1, lean=True)
+                meta["_lean_smt2"] = solve.to_smt2(ob.assumptions, ob.goal, lean)
                 meta["path"] = "".join(str(int(d)) for d in ob.path)
                 k = "canary" if (canary or meta.get("canary")) else kind
                 self.vcs.append(VC(ob.oid, text, meta, k, owner))
@@ -107,13 +134,14 @@ class Run:
                     self.engine_errors.append("%s: outside subset: %s" % (tag, exc))
                     self.engine_error_owners.append(c)
                     continue
-                self._collect(paths, "contract", c.label)
+                self._collect(paths, "contract", c.label, deps=set(interp.contracts_used) | {c.label})
                 if variant == "scalar":
                     self.sym_paths.setdefault(c.label, []).extend(paths)
         self.trusted |= interp.trusted_used
         self.contracts_used |= interp.contracts_used
         self.dropped += interp.dropped
         self.lemmas |= interp.lemmas_used
+        self._note_inlined(interp)
 
     def _contract_program(self, ctx, interp, c, variant, cfg, tag):
         ctx.ghost["verifying"] = c
@@ -251,7 +279,8 @@ class Run:
             self.engine_errors.append("%s: theorem program raised %r" % (t.label, pr.exc))
             self.engine_error_owners.append(t)
             return
-        self._collect(paths, "thm", t.label, canary=t.params.get("canary", False))
+        self._collect(paths, "thm", t.label, canary=t.params.get("canary", False), deps=set(interp.contracts_used))
+        self._note_inlined(interp)
         self.trusted |= interp.trusted_used
         self.contracts_used |= interp.contracts_used
         self.dropped += interp.dropped
@@ -267,7 +296,7 @@ class Run:
     # ------------------------------------------------------------- discharge
     def discharge(self, workers=None):
         self.gen_lemmas()
-        jobs = [(i, v.smt2, self.timeout if v.kind != "canary" else 6, self.seed, v.kind == "canary")
+        jobs = [(i, v.smt2, self.timeout if v.kind != "canary" else 6, self.seed, v.kind == "canary", v.meta.get("_lean_smt2"))
                 for i, v in enumerate(self.vcs)]
         workers = workers or min(14, max(1, len(jobs)))
         if not jobs:
